@@ -1070,3 +1070,69 @@ func init() {
 	addControl(control{Prop: "C04", Name: "kept-map-entries-all-validated", Rule: "R04k", Kind: "refactor",
 		File: "reify.go", Old: "		if _, named := fields[key.String()]; named {\n			continue\n		}\n		if err := tryRecursiveValidate(to.MapIndex(key)", New: "		if err := tryRecursiveValidate(to.MapIndex(key)"})
 }
+
+func init() {
+	// round 10 (C20-r10a/b): a second classifier in front of parseField, and the multi-segment rule moved to one caller only
+	addControl(control{Prop: "C20", Name: "parsepath-leaves-the-multi-segment-rule-to-its-callers", Rule: "R20b", Kind: "mutant", Quick: true,
+		File: "path.go", Old: "	if len(elems) > 1 {\n		enableNumKeys = false\n	}\n", New: "", Expect: "R20b/"})
+	addControl(control{Prop: "C20", Name: "plain-names-skip-the-classifier", Rule: "R20c", Kind: "mutant", Quick: true,
+		File: "path.go", Old: "	p := parsePathWithOpts(in, opts)\n", New: "	var p cfgPath\n	if opts.pathSep == \"\" || !strings.Contains(in, opts.pathSep) {\n		p = cfgPath{sep: opts.pathSep, fields: []field{namedField{in}}}\n	} else {\n		p = parsePathWithOpts(in, opts)\n	}\n", Expect: "R20c/ucfg.parsePathIdx"})
+	addControl(control{Prop: "C20", Name: "single-segment-names-classified-without-splitting", Rule: "R20b", Kind: "refactor",
+		File: "path.go", Old: "	return parsePath(in, opts.pathSep, opts.maxIdx, opts.enableNumKeys, opts.escapePath)\n", New: "	sep := opts.pathSep\n	if sep == \"\" || !strings.Contains(in, sep) {\n		return cfgPath{sep: sep, fields: []field{parseField(in, opts.maxIdx, opts.enableNumKeys)}}\n	}\n	return parsePath(in, sep, opts.maxIdx, opts.enableNumKeys, opts.escapePath)\n"})
+	addControl(control{Prop: "C20", Name: "classifier-called-with-the-flag-on-an-unsplit-name", Rule: "R20b", Kind: "mutant",
+		File: "path.go", Old: "	return parsePath(in, opts.pathSep, opts.maxIdx, opts.enableNumKeys, opts.escapePath)\n", New: "	if len(in) < 3 {\n		return cfgPath{sep: opts.pathSep, fields: []field{parseField(in, opts.maxIdx, opts.enableNumKeys)}}\n	}\n	return parsePath(in, opts.pathSep, opts.maxIdx, opts.enableNumKeys, opts.escapePath)\n", Expect: "R20b/ucfg.parsePathWithOpts"})
+}
+
+func init() {
+	// round 10 (C16-r10a): the handling-tree lookup skipped for "uninteresting" pairs of values
+	lookup := "		opts, err := fieldOptsOverride(opts, k, -1)\n		if err != nil {\n			return err\n		}\n		merged, err := mergeValues(opts, old, v)\n"
+	addControl(control{Prop: "C16", Name: "handling-lookup-only-for-two-sub-configs", Rule: "R16g", Kind: "mutant", Quick: true,
+		File: "merge.go", Old: lookup, New: "		opts := opts\n		if isSub(old) && isSub(v) {\n			o, err := fieldOptsOverride(opts, k, -1)\n			if err != nil {\n				return err\n			}\n			opts = o\n		}\n		merged, err := mergeValues(opts, old, v)\n", Expect: "R16g/ucfg.mergeConfigDict"})
+	addControl(control{Prop: "C16", Name: "handling-lookup-skipped-without-a-tree", Rule: "R16g", Kind: "refactor",
+		File: "merge.go", Old: lookup, New: "		opts := opts\n		if opts.fieldHandlingTree != nil {\n			o, err := fieldOptsOverride(opts, k, -1)\n			if err != nil {\n				return err\n			}\n			opts = o\n		}\n		merged, err := mergeValues(opts, old, v)\n"})
+	addControl(control{Prop: "C16", Name: "derived-options-not-built-in-this-call", Rule: "R16b", Kind: "mutant",
+		File: "merge.go", Old: "			newOpts := *opts\n			newOpts.fieldHandlingTree = nil\n			return &newOpts, nil\n", New: "			if opts.env != nil && len(opts.env) > 0 {\n				if p, ok := interface{}(opts.env[0].ctx.parent).(*options); ok {\n					return p, nil\n				}\n			}\n			newOpts := *opts\n			newOpts.fieldHandlingTree = nil\n			return &newOpts, nil\n", Expect: "R16b/ucfg.fieldOptsOverride/derived options"})
+}
+
+func init() {
+	// round 10 (C13-r10b): "merged in place, nothing to store"
+	addControl(control{Prop: "C13", Name: "map-merged-in-place-nothing-returned", Rule: "R13h", Kind: "mutant", Quick: true,
+		File: "reify.go", Old: "		return old, reifyMap(opts.opts, old, sub, opts.validators)\n", New: "		return reflect.Value{}, reifyMap(opts.opts, old, sub, opts.validators)\n", Expect: "R13h/ucfg.reifyMergeValue"})
+	addControl(control{Prop: "C13", Name: "struct-merged-result-in-locals", Rule: "R13h", Kind: "refactor",
+		File: "reify.go", Old: "		return oldValue, reifyStruct(opts.opts, old, sub)\n", New: "		if e := reifyStruct(opts.opts, old, sub); e != nil {\n			return reflect.Value{}, e\n		}\n		return oldValue, nil\n"})
+}
+
+func init() {
+	// round 10 (C03-r10a): a hand-written digit loop in front of strconv
+	for _, pr := range [][2]string{{"C03", "R03g"}, {"C17", "R17i"}} {
+		addControl(control{Prop: pr[0], Name: "small-decimals-read-by-hand", Rule: pr[1], Kind: "mutant", Quick: true,
+			File: "parse/parse.go", Old: "	if content == \"null\" {\n		return nil, nil\n	}\n	if b, ok := parseBoolValue(content); ok {", New: "	if len(content) > 0 && len(content) <= 20 {\n		var n uint64\n		ok := true\n		for i := 0; i < len(content); i++ {\n			d := content[i] - '0'\n			if d > 9 {\n				ok = false\n				break\n			}\n			n = n*10 + uint64(d)\n		}\n		if ok {\n			return n, nil\n		}\n	}\n	if content == \"null\" {\n		return nil, nil\n	}\n	if b, ok := parseBoolValue(content); ok {", Expect: pr[1] + "/(*parse.flagParser).parsePrimitive"})
+		addControl(control{Prop: pr[0], Name: "parsed-number-through-a-local", Rule: pr[1], Kind: "refactor",
+			File: "parse/parse.go", Old: "	if n, err := strconv.ParseInt(content, 0, 64); err == nil {\n		return n, nil\n	}\n", New: "	n, err := strconv.ParseInt(content, 0, 64)\n	if err == nil {\n		var out interface{} = n\n		return out, nil\n	}\n"})
+	}
+}
+
+func init() {
+	// round 10 (C08-r10b): a lookup helper that closes its scope and hands the value out
+	addControl(control{Prop: "C08", Name: "resolved-value-handed-out-of-its-scope", Rule: "R08d", Kind: "mutant", Quick: true,
+		File: "variables.go",
+		Old:  "func (e *expansionErr) eval(cfg *Config, opts *options) (string, error) {\n	path, err := e.left.eval(cfg, opts)\n	if err == nil && path != \"\" {\n		ref := newReference(parsePath(path, e.pathSep, opts.maxIdx, opts.enableNumKeys, opts.escapePath))\n		str, err := ref.eval(cfg, opts)\n		if err == nil && str != \"\" {\n			return str, nil\n		}\n	}\n",
+		New:  "func (r *reference) scopedResolve(cfg *Config, opts *options) (value, error) {\n	parentFields := opts.activeFields\n	opts.activeFields = newFieldSet(parentFields)\n	defer func() { opts.activeFields = parentFields }()\n	return r.resolve(cfg, opts)\n}\n\nfunc (e *expansionErr) eval(cfg *Config, opts *options) (string, error) {\n	path, err := e.left.eval(cfg, opts)\n	if err == nil && path != \"\" {\n		ref := newReference(parsePath(path, e.pathSep, opts.maxIdx, opts.enableNumKeys, opts.escapePath))\n		v, err := ref.scopedResolve(cfg, opts)\n		if err == nil && v != nil {\n			if str, err := v.toString(opts); err == nil && str != \"\" {\n				return str, nil\n			}\n		}\n	}\n",
+		Expect: "R08d/(*ucfg.reference).scopedResolve"})
+}
+
+func init() {
+	// round 10 (C09-r10b): a keyed accessor that also records the order of its calls
+	addControl(control{Prop: "C09", Name: "keyed-accessor-records-call-order", Rule: "R09e", Kind: "mutant", Quick: true,
+		File: "ucfg.go", Old: "	if f.d == nil {\n		f.d = map[string]value{}\n	}\n	f.d[name] = v\n", New: "	if f.d == nil {\n		f.d = map[string]value{}\n	}\n	if _, exists := f.d[name]; !exists {\n		f.a = append(f.a, v)\n	}\n	f.d[name] = v\n", Expect: "R09e/(*ucfg.fields).set"})
+	addControl(control{Prop: "C09", Name: "keyed-accessor-map-made-with-size", Rule: "R09e", Kind: "refactor",
+		File: "ucfg.go", Old: "	if f.d == nil {\n		f.d = map[string]value{}\n	}\n	f.d[name] = v\n", New: "	if f.d == nil {\n		f.d = make(map[string]value, 4)\n	}\n	f.d[name] = v\n"})
+}
+
+func init() {
+	// round 10 (C18-r10a): plain keys stored through a path segment made on the spot
+	for _, pr := range [][2]string{{"C05", "R05c"}, {"C18", "R18h"}} {
+		addControl(control{Prop: pr[0], Name: "plain-keys-stored-through-a-segment-of-their-own", Rule: pr[1], Kind: "mutant", Quick: true,
+			File: "merge.go", Old: "		err := normalizeSetField(cfg, opts, noTagOpts, k.String(), from.MapIndex(k))\n		if err != nil {\n			return err\n		}\n", New: "		if opts.pathSep == \"\" && !cfg.HasField(k.String()) && !('0' <= k.String()[0] && k.String()[0] <= '9') {\n			val, err := normalizeValue(opts, noTagOpts, context{}, from.MapIndex(k))\n			if err != nil {\n				return err\n			}\n			if err := (namedField{k.String()}).SetValue(opts, cfgSub{cfg}, val); err != nil {\n				return err\n			}\n			continue\n		}\n		err := normalizeSetField(cfg, opts, noTagOpts, k.String(), from.MapIndex(k))\n		if err != nil {\n			return err\n		}\n", Expect: pr[1] + "/ucfg.normalizeMapInto"})
+	}
+}
